@@ -65,6 +65,52 @@ SPEC = {
 }
 
 
+# several values per class: the class-level theorem (C06_class_level) says the decision depends on the class only — the table with one
+# representative per class is run in full, and a value-level sample checks that claim against the code on varied values
+VALUES = {
+    N: ["n"], B: ["t", "f"],
+    NUM: ["i-3", "u0", G.f64_bits(2.5), G.f64_bits(-0.0), G.f64_bits(1e308), "u18446744073709551615", "i-9223372036854775808"],
+    STR: [G.enc_str(x) for x in ["ab", "", "true", "[1]", "{}", "\"7\"", "null", "1", " 5", "+5", "😀", "false", "[]", "1e2", "{\"a\":1}"]],
+    AE: ["[ ]"],
+    AN: ["[ u3 u1 " + G.f64_bits(2.5) + " ]", "[ u0 ]", "[ i-1 " + G.f64_bits(1e308) + " " + G.f64_bits(1e308) + " ]"],
+    AS: ["[ " + G.enc_str("b") + " " + G.enc_str("a") + " ]", "[ " + G.enc_str("true") + " ]", "[ " + G.enc_str("") + " " + G.enc_str("1") + " ]"],
+    AM: ["[ u1 " + G.enc_str("a") + " n ]", "[ n ]", "[ [ ] ]", "[ " + G.enc_str("a") + " u1 ]", "[ { } ]", "[ t f ]", "[ u1 u2 " + G.enc_str("3") + " ]"],
+    OBJ: ["{ " + G.enc_str("k") + " u1 }", "{ }", "{ " + G.enc_str("a") + " n " + G.enc_str("b") + " [ ] }"],
+}
+ONE_ARG = ["abs", "avg", "ceil", "floor", "keys", "length", "max", "min", "reverse", "sort", "sum", "to_array", "to_number", "to_string", "type", "values"]
+
+
+def value_cells(ctx):
+    """(name, classes, values) with random values of the classes"""
+    rng = ctx.rng
+    out = []
+    names = sorted(SPEC)
+    for _ in range(4000 if ctx.tier == "quick" else 200000):
+        name = rng.choice(names)
+        d = len(SPEC[name][0])
+        n = rng.choice([d, d, d, d, d + 1, max(0, d - 1)]) if SPEC[name][1] is None else rng.choice([d, d + 1, d + 2, d + 3])
+        cs = tuple(rng.choice(CLASSES) for _ in range(n))
+        out.append((name, cs, tuple(None if c == XR else rng.choice(VALUES[c]) for c in cs)))
+    return out
+
+
+def nested_cases(ctx):
+    """a one-argument builtin applied per element inside map / a projection / sort_by: (form, F, element classes, expression, document)"""
+    rng = ctx.rng
+    out = []
+    for _ in range(2500 if ctx.tier == "quick" else 100000):
+        f = rng.choice(ONE_ARG)
+        k = rng.randrange(1, 6)
+        acc = SPEC[f][0][0][0]
+        good = [c for c in CLASSES if c in acc and c != XR]
+        cs = [rng.choice(good) if rng.random() < 0.8 else rng.choice([c for c in CLASSES if c != XR]) for _ in range(k)]
+        vals = [rng.choice([v for v in VALUES[c] if "d7fe1ccf385ebc8a0" not in v]) for c in cs]      # (sum/avg overflow is C12's known finding F14)
+        form = rng.choice(["map(&%s(@), xs)", "xs[*].%s(@)", "xs[].%s(@)", "sort_by(xs, &%s(@))", "max_by(xs, &%s(@))", "xs[?%s(@)]",
+                           "[xs[0].%s(@), `1`]", "{k: xs[-1].%s(@)}", "to_array(xs[0].%s(@))", "xs[*].[%s(@)]"])
+        out.append((form, f, tuple(cs), form % f, "{ " + G.enc_str("xs") + " [ " + " ".join(vals) + " ] }"))
+    return out
+
+
 def expected(name, classes):
     """('arity', kind, exp, act) | ('type', pos, expected-name, actual) | ('ok', result types)"""
     inputs, var, res = SPEC[name]
@@ -100,14 +146,14 @@ def cells(ctx):
     return out
 
 
-def to_case(name, classes):
+def to_case(name, classes, values=None):
     args, docparts = [], []
     for k, c in enumerate(classes):
         if c == XR:
             args.append("&k")
         else:
             args.append("a%d" % k)
-            docparts.append(G.enc_str("a%d" % k) + " " + DOCVAL[c])
+            docparts.append(G.enc_str("a%d" % k) + " " + (values[k] if values else DOCVAL[c]))
     return name + "(" + ", ".join(args) + ")", "{ " + " ".join(docparts) + " }" if docparts else "{ }"
 
 
@@ -118,12 +164,27 @@ def result_type(enc):
 
 def run(ctx):
     cs = cells(ctx)
+    vcs = value_cells(ctx)
+    nested = nested_cases(ctx)
     if getattr(ctx, "replay", None):
-        cs = [(ctx.replay["case"][0], tuple(ctx.replay["case"][1]))]
-    cases = [to_case(n, c) for n, c in cs]
+        rc = ctx.replay["case"]
+        nested, vcs, cs = [], [], []
+        if rc[0] == "nested":
+            nested = [(rc[1], rc[2], tuple(rc[3]), rc[4], rc[5])]
+        else:
+            cs = [(rc[0], tuple(rc[1]))]
+            vcs = [(rc[0], tuple(rc[1]), None)] if False else []
+            cases_override = [(rc[2], rc[3])]
+    cases = [to_case(n, c) for n, c in cs] + [to_case(n, c, v) for n, c, v in vcs]
+    if getattr(ctx, "replay", None) and cs:
+        cases = cases_override
+    cs = cs + [(n, c) for n, c, _ in vcs]
     # unregistered names
     unk = [("nope(a0)", "{ }"), ("Abs(a0)", "{ }"), ("sortby(@, &a)", "[ ]"), ("to_array(nope2(@))", "u1")]
-    impl, model = S.eval_run(ctx, cases + unk)
+    ncases = [(e, d) for _, _, _, e, d in nested]
+    impl, model = S.eval_run(ctx, cases + unk + ncases)
+    nimpl, nmodel = impl[len(cases) + len(unk):], model[len(cases) + len(unk):]
+    impl, model = impl[:len(cases) + len(unk)], model[:len(cases) + len(unk)]
     outcome = dict(arity=0, type=0, ok=0, ok_internal=0)
     for (name, classes), (e, d), i, m in zip(cs, cases, impl, model):
         ctx.evaluations += 1
@@ -164,6 +225,58 @@ def run(ctx):
         ctx.evaluations += 1
         if "unknown-function" not in (i or ""):
             ctx.violation("eval", [e, d], (i or "NONE")[:300], "unknown-function error")
+    # nested calls: the first element (in order) that does not satisfy F's parameter type makes the whole search fail with F's invalid-type
+    # error at F's own call; if every element satisfies it no arity/type error may appear and map / projections keep results of F's result type
+    nst = dict(type_error=0, ok=0)
+    for (form, f, classes, e, d), i, m in zip(nested, nimpl, nmodel):
+        ctx.evaluations += 1
+        ctx.nontrivial.add((form, f, classes))
+        ci, cm = S.canon_eval(i), S.canon_eval(m)
+        case = ["nested", form, f, list(classes), e, d]
+        used = classes
+        if form.startswith("[xs[0]") or form.startswith("to_array(xs[0]"):
+            used = classes[:1]
+        elif form.startswith("{k: xs[-1]"):
+            used = classes[-1:]
+        judge = True
+        if form.startswith("xs[*].["):
+            used = [c for c in classes if c != N]            # a multi-select on a null element is null: F is not called
+        if form.startswith("xs[]") and any(c in ARR for c in classes):
+            judge = False                                     # flatten splices array elements: the projected elements are their members
+        if form.startswith(("sort_by", "max_by")) and f not in ("abs", "ceil", "floor", "length", "sum", "to_string", "type"):
+            judge = False                                     # the key's own type check (number|string) may fire before a later element is reached
+        if not judge:
+            if ci != cm:
+                ctx.violation("eval", case, ci[:300], cm[:300], "implementation differs from the model (nested call)")
+            continue
+        bad = next((c for c in used if expected(f, [c])[0] == "type"), None)
+        off = e.index(f + "(") + len(f)
+        if bad is not None:
+            nst["type_error"] += 1
+            ex = expected(f, [bad])
+            want = f"E runtime invalid-type exp={C.hexs(ex[2])} act={C.hexs(ex[3])} pos=0 off={off}"
+            if ci != want:
+                ctx.violation("eval", case, ci[:300], want, "an ill-typed element must make the nested call fail with its invalid-type error (not be skipped or swallowed)")
+                continue
+        else:
+            nst["ok"] += 1
+            if ci.startswith("E runtime") and any(k in ci for k in ("not-enough", "too-many", "invalid-type", "unknown-function")):
+                ctx.violation("eval", case, ci[:300], "no arity/type error (every element satisfies the signature)")
+                continue
+            if ci.startswith("ok [") and (form.startswith("map(") or form.startswith("xs[*].%s") and False):
+                pass
+            if ci.startswith("ok ") and form.startswith("map("):
+                import enc as E
+                vals = E.parse(ci[3:])
+                okt = SPEC[f][2]
+                tn = lambda v: "null" if v is None else "boolean" if isinstance(v, bool) else "array" if isinstance(v, list) else "object" if isinstance(v, dict) \
+                    else "string" if isinstance(v, tuple) and v[0] == "s" else "number"
+                if not isinstance(vals, list) or len(vals) != len(classes) or any(tn(v) not in okt for v in vals):
+                    ctx.violation("eval", case, ci[:300], f"an array of {len(classes)} results of type {okt}", "map must return one result of the function's declared type per element")
+                    continue
+        if ci != cm:
+            ctx.violation("eval", case, ci[:300], cm[:300], "implementation differs from the model (nested call)")
+    ctx.coverage["nested_calls"] = nst
     ctx.coverage["cells_by_expected_outcome"] = outcome
     ctx.coverage["exhaustive"] = ctx.tier == "thorough"   # quick: every cell with <= 3 arguments, a sample of the 4-argument cells
     ctx.coverage["streams"] = ["eval"]
